@@ -185,7 +185,7 @@ def run_property(pid, tier, seed, meta, known, scratch, a):
     for m in missed:
         print('UNDECIDED seeded mutant not caught: unit=%s %s (%s %s)' % (m['unit'], m['mutant'], m['status'], m['reason']))
     wall = time.time() - t0
-    if not (a.mutants or a.unit):     # partial runs (debugging) never overwrite the evidence file
+    if not (a.mutants or a.unit or os.environ.get('VERIF_NO_EVIDENCE')):     # partial runs and seed trials (debugging) never overwrite the evidence file
         write_evidence(pid, tier, seed, meta, results, known_hits, violations, wall, [], mutant_results)
     nob = sum(r.counts()[0] for r in results)
     nok = sum(r.counts()[1] for r in results)
